@@ -1,6 +1,7 @@
 import JediModel.Gen.C11
 import JediModel.Lemmas.Call
 import JediModel.Lemmas.CallArgs
+import JediModel.Lemmas.CallForward
 set_option linter.unusedSimpArgs false
 /-! # C11 — signatures and docstrings mirror the definition; index locates the argument
 
@@ -27,11 +28,17 @@ theorem gen_get_kind_tests :
        "tree_param.name.value.startswith('__')", "param_appeared", "p == '/'", "p == '*'",
        "p.type == 'param'", "p.star_count", "p == tree_param"] := by decide
 
-/-- separators of `to_string`, the `[1:]` of a bound signature, the pieces of `docstring()` -/
+/-- separators of `to_string`, the rule for a bound signature (`_remove_bound_param`: keep a leading
+`*args`, else `[1:]`), the pieces of `docstring()` -/
 theorem gen_rendering_literals :
     JediModel.Gen.C11.paramToStringLiterals = [": ", "="] ∧
     JediModel.Gen.C11.sigToStringLiterals = [")", " -> ", "/", "(", "/", ", ", "*"] ∧
-    JediModel.Gen.C11.boundSlice = ["params[1:]"] ∧
+    JediModel.Gen.C11.boundRule = ["_remove_bound_param(params)"] ∧
+    JediModel.Gen.C11.abstractBoundRule = ["_remove_bound_param(param_names)"] ∧
+    JediModel.Gen.C11.removeBoundParam =
+      ["(param_names)",
+       "if param_names and param_names[0].get_kind() == Parameter.VAR_POSITIONAL: return param_names",
+       "return param_names[1:]"] ∧
     JediModel.Gen.C11.docstringReturns =
       ["''", "doc", "signature_text + '\\n\\n' + doc", "signature_text + doc"] ∧
     JediModel.Gen.C11.docSignatureJoin = ["\n"] := by decide
@@ -47,6 +54,31 @@ theorem gen_calculate_index_tests :
        "kind == Parameter.VAR_KEYWORD", "had_equal", "i == positional_count", "star_count",
        "had_equal", "param_name.string_name == key_start",
        "param_name.string_name.startswith(key_start)"] := rfl
+
+/-- the guards of `process_params` / `_remove_given_params` and the kinds `maybe_positional_argument` /
+`maybe_keyword_argument` accept, as `ppScan`, `ppScan2`, `processParamsKw`, `removeGiven`,
+`maybePositional`, `maybeKeyword` transcribe them -/
+theorem gen_forwarding_tests :
+    JediModel.Gen.C11.removeGivenTests =
+      ["key is None", "count and p.maybe_positional_argument()",
+       "p.string_name in used_keys and p.maybe_keyword_argument()"] ∧
+    JediModel.Gen.C11.maybePositionalKinds =
+      ["Parameter.POSITIONAL_ONLY", "Parameter.POSITIONAL_OR_KEYWORD", "Parameter.VAR_POSITIONAL"] ∧
+    JediModel.Gen.C11.maybeKeywordKinds =
+      ["Parameter.KEYWORD_ONLY", "Parameter.POSITIONAL_OR_KEYWORD", "Parameter.VAR_KEYWORD"] ∧
+    JediModel.Gen.C11.processParamsTests =
+      ["param_names", "not found_arg_signature and original_arg_name is not None",
+       "not found_kwarg_signature and original_kwarg_name is not None",
+       "is_big_annoying_library(param_names[0].parent_context)", "kind == Parameter.VAR_POSITIONAL",
+       "func_and_argument in kwarg_callables", "star_count == 1 and p.get_kind() != Parameter.VAR_POSITIONAL",
+       "arg_names", "p.string_name in used_names", "kwarg_names", "star_count & 1",
+       "p.get_kind() == Parameter.VAR_KEYWORD", "new_star_count == 3",
+       "len(args_for_this_func) > len(longest_param_names)", "p.get_kind() == Parameter.POSITIONAL_OR_KEYWORD",
+       "star_count & 2", "kind == Parameter.KEYWORD_ONLY", "p.get_kind() == Parameter.VAR_KEYWORD",
+       "p.get_kind() == Parameter.VAR_KEYWORD", "star_count & 2", "kind == Parameter.POSITIONAL_ONLY",
+       "p.get_kind() == Parameter.VAR_POSITIONAL", "p.get_kind() == Parameter.KEYWORD_ONLY", "star_count & 1",
+       "star_count == 1", "p.get_kind() == Parameter.KEYWORD_ONLY", "star_count == 2"] := by
+  refine ⟨by decide, by decide, by decide, rfl⟩
 
 /-! ## parameter kinds -/
 
@@ -127,49 +159,205 @@ theorem signature_params_unbound (s : Sig)
     signatureParams false (paramNames s.toks) = s.params := by
   simp [signatureParams, paramNames_toks s hpk hko, processParams_params s h]
 
-/-- bound ⇒ exactly the first parameter is dropped -/
+/-- bound and the first parameter is a named one ⇒ exactly that parameter is dropped -/
 theorem bound_drops_self (s : Sig)
     (hpk : ∀ p ∈ s.pk, dunder p.name = false) (hko : ∀ p ∈ s.ko, dunder p.name = false)
-    (h : ((s.pk ++ s.ko).map P.name).Nodup) :
-    signatureParams true (paramNames s.toks) = s.params.drop 1 := by
-  simp [signatureParams, paramNames_toks s hpk hko, processParams_params s h]
-
-/-- Python's view of a bound method (`inspect._signature_bound_method`): the first positional
-parameter is consumed; a leading `*args` absorbs `self` and stays -/
-def pyBound (s : Sig) : Sig :=
-  match s.po, s.pk with
-  | _ :: po, _ => { s with po := po }
-  | [], _ :: pk => { s with pk := pk }
-  | [], [] => s
-
-/- FULL (false, see `bound_star_args_witness`):
-   theorem bound_eq_pyBound (s : Sig) … : signatureParams true (paramNames s.toks) = (pyBound s).params -/
-
-/-- where Python binds `self`/`cls` to a named parameter, jedi removes exactly that parameter -/
-theorem bound_eq_pyBound_partial (s : Sig)
-    (hpk : ∀ p ∈ s.pk, dunder p.name = false) (hko : ∀ p ∈ s.ko, dunder p.name = false)
     (h : ((s.pk ++ s.ko).map P.name).Nodup) (hfirst : s.po ≠ [] ∨ s.pk ≠ []) :
-    signatureParams true (paramNames s.toks) = (pyBound s).params := by
-  rw [bound_drops_self s hpk hko h]
+    signatureParams true (paramNames s.toks) = s.params.drop 1 := by
+  simp only [signatureParams, paramNames_toks s hpk hko, processParams_params s h, if_true]
   obtain ⟨po, pk, vp, ko, vk⟩ := s
   cases po with
-  | cons p po => simp [pyBound, Sig.params]
+  | cons p po => simp [removeBoundParam, Sig.params, P.pname]
   | nil =>
     cases pk with
-    | cons p pk => simp [pyBound, Sig.params]
+    | cons p pk => simp [removeBoundParam, Sig.params, P.pname]
     | nil => simp at hfirst
 
-example : ∃ s : Sig, (s.po ≠ [] ∨ s.pk ≠ []) ∧ s.ko ≠ [] ∧ ((s.pk ++ s.ko).map P.name).Nodup :=
-  ⟨⟨[], [⟨['s', 'e', 'l', 'f'], none, none⟩, ⟨['a'], none, none⟩], none, [⟨['k'], none, none⟩], none⟩,
+/-- bound and the definition starts with `*args` ⇒ nothing is dropped (`self` lands in `*args`) -/
+theorem bound_keeps_star_args (s : Sig)
+    (hko : ∀ p ∈ s.ko, dunder p.name = false) (h : (s.ko.map P.name).Nodup)
+    (hpo : s.po = []) (hpk : s.pk = []) (hvp : s.vp.isSome) :
+    signatureParams true (paramNames s.toks) = s.params := by
+  obtain ⟨po, pk, vp, ko, vk⟩ := s
+  simp only at hpo hpk hvp
+  subst hpo hpk
+  have e := paramNames_toks ⟨[], [], vp, ko, vk⟩ (by simp) hko
+  have e2 := processParams_params ⟨[], [], vp, ko, vk⟩ (by simpa using h)
+  simp only [signatureParams, e, e2, if_true]
+  cases vp with
+  | none => simp at hvp
+  | some a => simp [removeBoundParam, Sig.params, P.pname]
+
+/-- the parameters `get_signatures` shows for a bound method / classmethod / class are those of
+`inspect.signature` of the bound object (`pyBound`, Model/Call.lean = `inspect._signature_bound_method`),
+for EVERY valid parameter list for which Python has such a signature: the first named parameter is
+removed, a leading `*args` stays -/
+theorem bound_eq_pyBound (s s' : Sig)
+    (hpk : ∀ p ∈ s.pk, dunder p.name = false) (hko : ∀ p ∈ s.ko, dunder p.name = false)
+    (h : ((s.pk ++ s.ko).map P.name).Nodup) (hb : pyBound s = some s') :
+    signatureParams true (paramNames s.toks) = s'.params := by
+  simp only [signatureParams, paramNames_toks s hpk hko, processParams_params s h, if_true]
+  obtain ⟨po, pk, vp, ko, vk⟩ := s
+  cases po with
+  | cons p po =>
+    simp only [pyBound, Option.some.injEq] at hb
+    subst hb
+    simp [removeBoundParam, Sig.params, P.pname]
+  | nil =>
+    cases pk with
+    | cons p pk =>
+      simp only [pyBound, Option.some.injEq] at hb
+      subst hb
+      simp [removeBoundParam, Sig.params, P.pname]
+    | nil =>
+      cases vp with
+      | none => simp [pyBound] at hb
+      | some a =>
+        simp only [pyBound, Option.isSome_some, if_true, Option.some.injEq] at hb
+        subst hb
+        simp [removeBoundParam, Sig.params, P.pname]
+
+example : ∃ s s' : Sig, pyBound s = some s' ∧ s.po = [] ∧ s.pk = [] ∧ s.ko ≠ [] ∧
+    ((s.pk ++ s.ko).map P.name).Nodup :=
+  ⟨⟨[], [], some ⟨['a', 'r', 'g', 's'], none, none⟩, [⟨['k'], none, some ['1']⟩], none⟩, _, rfl,
     by decide⟩
 
-/-- kernel-checked: `def m(*args, k=1)` reached through an instance – jedi drops `*args`
-(`m(*, k=1)`), Python keeps it (`(*args, k=1)`) -/
-theorem bound_star_args_witness :
-    signatureParams true (paramNames (Sig.toks ⟨[], [], some ⟨['a', 'r', 'g', 's'], none, none⟩,
-      [⟨['k'], none, some ['1']⟩], none⟩)) ≠
-      (pyBound ⟨[], [], some ⟨['a', 'r', 'g', 's'], none, none⟩, [⟨['k'], none, some ['1']⟩], none⟩).params := by
+example : ∃ s s' : Sig, pyBound s = some s' ∧ s.pk ≠ [] ∧ s'.pk ≠ [] ∧ s.ko ≠ [] ∧
+    ((s.pk ++ s.ko).map P.name).Nodup :=
+  ⟨⟨[], [⟨['s', 'e', 'l', 'f'], none, none⟩, ⟨['a'], none, none⟩], none, [⟨['k'], none, none⟩], none⟩,
+    _, rfl, by decide⟩
+
+/-- the former counter-witness, now the fixed behaviour: `def m(*args, k=1)` reached through an
+instance is shown as `m(*args, k=1)` -/
+theorem bound_star_args_example :
+    sigToString ['m'] (signatureParams true (paramNames (Sig.toks
+      ⟨[], [], some ⟨['a', 'r', 'g', 's'], none, none⟩, [⟨['k'], none, some ['1']⟩], none⟩))) [] =
+      "m(*args, k=1)".toList := by decide
+
+/-- where Python has no signature for the bound object (`def m()`, `def m(*, k)`, `def m(**kw)`
+in a class: `inspect.signature` raises `ValueError`, every call through the instance raises
+`TypeError`) the first parameter is dropped all the same (characterisation, no Python ground truth) -/
+theorem bound_spec_invalid_method (s : Sig)
+    (hko : ∀ p ∈ s.ko, dunder p.name = false) (h : (s.ko.map P.name).Nodup)
+    (hb : pyBound s = none) :
+    signatureParams true (paramNames s.toks) = s.params.drop 1 := by
+  obtain ⟨po, pk, vp, ko, vk⟩ := s
+  cases po with
+  | cons p po => simp [pyBound] at hb
+  | nil =>
+    cases pk with
+    | cons p pk => simp [pyBound] at hb
+    | nil =>
+      cases vp with
+      | some a => simp [pyBound] at hb
+      | none =>
+        have e := paramNames_toks ⟨[], [], none, ko, vk⟩ (by simp) hko
+        have e2 := processParams_params ⟨[], [], none, ko, vk⟩ (by simpa using h)
+        simp only [signatureParams, e, e2, if_true]
+        cases ko with
+        | cons k ko => simp [removeBoundParam, Sig.params, P.pname]
+        | nil => cases vk <;> simp [removeBoundParam, Sig.params, P.pname]
+
+/-! ## `**kwargs` pass-through wrappers (`process_params` forwarding) -/
+
+/-- with nothing forwarded the forwarding model is `process_params` as modelled before -/
+theorem process_params_kw_nil (ps : List PName) : processParamsKw ps [] = processParams ps := by
+  simp [processParamsKw, processParams]
+
+/-- a wrapper `def w(<own parameters>, **kwargs)` whose body passes `**kwargs` (and nothing else)
+on to a callee with parameter list `s`: the signature shown is the wrapper's own parameters, then
+the callee's positional-or-keyword and keyword-only parameters – all keyword-only now, names,
+defaults, annotations and order kept –, then the callee's `**kwargs`; the callee's positional-only
+parameters and `*args` (unreachable through `**kwargs`) are not shown -/
+theorem kwforward_params (w s : Sig)
+    (hwpk : ∀ p ∈ w.pk, dunder p.name = false) (hwko : ∀ p ∈ w.ko, dunder p.name = false)
+    (hspk : ∀ p ∈ s.pk, dunder p.name = false) (hsko : ∀ p ∈ s.ko, dunder p.name = false)
+    (h : ((w.pk ++ (w.ko ++ (s.pk ++ s.ko))).map P.name).Nodup) :
+    processParamsKw (paramNames w.toks) [calleeParams false 0 [] (paramNames s.toks)] =
+      Sig.params ⟨w.po, w.pk, w.vp, w.ko ++ (s.pk ++ s.ko), s.vk⟩ := by
+  rw [paramNames_toks w hwpk hwko, paramNames_toks s hspk hsko]
+  simp only [calleeParams, Bool.false_eq_true, if_false, removeGiven_zero_nil]
+  exact processParamsKw_sig w s h
+
+example : ∃ w s : Sig, w.pk ≠ [] ∧ w.vk.isSome ∧ s.po ≠ [] ∧ s.pk ≠ [] ∧ s.vp.isSome ∧ s.ko ≠ [] ∧
+    ((w.pk ++ (w.ko ++ (s.pk ++ s.ko))).map P.name).Nodup :=
+  ⟨⟨[], [⟨['x'], none, none⟩], none, [], some ⟨['k', 'w'], none, none⟩⟩,
+   ⟨[⟨['p'], none, none⟩], [⟨['a'], none, some ['1']⟩], some ⟨['v'], none, none⟩, [⟨['k'], none, none⟩], none⟩,
+   by decide⟩
+
+/-- the plain pass-through shape `def f(**kwargs): return g(**kwargs)`: the forwarded signature is
+`kwForwarded` of the wrapped one -/
+theorem kwforward_pure (s : Sig) (kw : P)
+    (hspk : ∀ p ∈ s.pk, dunder p.name = false) (hsko : ∀ p ∈ s.ko, dunder p.name = false)
+    (h : ((s.pk ++ s.ko).map P.name).Nodup) :
+    signatureParams false (processParamsKw (paramNames (Sig.toks ⟨[], [], none, [], some kw⟩))
+      [calleeParams false 0 [] (paramNames s.toks)]) = (kwForwarded s).params := by
+  have e := kwforward_params ⟨[], [], none, [], some kw⟩ s (by simp) (by simp) hspk hsko (by simpa using h)
+  rw [e]
+  have hn : (((kwForwarded s).pk ++ (kwForwarded s).ko).map P.name).Nodup := by simpa [kwForwarded] using h
+  have := processParams_params (kwForwarded s) hn
+  simpa [signatureParams, kwForwarded] using this
+
+/- FULL (false, see `kwforward_required_positional_only_witness`):
+   theorem kwforward_accepts_iff (s : Sig) (npos : Nat) (kws : List Str) :
+     pyAccepts (kwForwarded s) npos kws = pyRunsKwWrapper s npos kws -/
+
+/-- exactly the calls that bind against the forwarded signature run without `TypeError` – for every
+wrapped parameter list whose positional-only parameters all have defaults, every number of
+positional arguments and every list of keywords -/
+theorem kwforward_accepts_iff_partial (s : Sig) (npos : Nat) (kws : List Str)
+    (hpo : ∀ p ∈ s.po, p.dflt.isSome = true) :
+    pyAccepts (kwForwarded s) npos kws = pyRunsKwWrapper s npos kws := by
+  obtain ⟨po, pk, vp, ko, vk⟩ := s
+  simp only at hpo
+  have h1 : ∀ n, pyKwOk (kwForwarded ⟨po, pk, vp, ko, vk⟩) npos n = pyKwOk ⟨po, pk, vp, ko, vk⟩ 0 n := by
+    intro n
+    have e0 : optIdx (([] : List P).map P.name) n = none := by simp [optIdx]
+    simp only [pyKwOk, kwForwarded, e0]
+    cases hn : optIdx (pk.map P.name) n with
+    | some j =>
+      have := (optIdx_some_mem _ _ _ hn).1
+      simp [this]
+    | none =>
+      have := (optIdx_none_iff _ _).mp hn
+      have hc : (pk.map P.name).contains n = false := by simpa using this
+      simp only [List.map_append, List.contains_append, hc, Bool.false_or]
+  have h2 : po.all (fun p => p.dflt.isSome) = true := by
+    simpa [List.all_eq_true] using hpo
+  have h3 : (kws.all (pyKwOk (kwForwarded ⟨po, pk, vp, ko, vk⟩) npos)) = kws.all (pyKwOk ⟨po, pk, vp, ko, vk⟩ 0) := by
+    congr 1
+    funext n
+    exact h1 n
+  unfold pyRunsKwWrapper pyAccepts
+  rw [h3]
+  by_cases h0 : npos = 0
+  · subst h0
+    simp [kwForwarded, h2, List.all_append, Bool.and_assoc]
+  · simp [kwForwarded, h0]
+
+example : ∃ (s : Sig) (kws : List Str), s.po ≠ [] ∧ (∀ p ∈ s.po, p.dflt.isSome = true) ∧
+    pyAccepts (kwForwarded s) 0 kws = true :=
+  ⟨⟨[⟨['p'], none, some ['1']⟩], [⟨['a'], none, none⟩], none, [⟨['k'], none, some ['2']⟩], none⟩,
+    [['a']], by decide⟩
+
+/-- kernel-checked: `def g(p, /, a): pass` / `def f(**kwargs): return g(**kwargs)` – the shown
+signature `f(*, a)` accepts `f(a=0)`, the real call raises `TypeError` (`p` can never be supplied) -/
+theorem kwforward_required_positional_only_witness :
+    pyAccepts (kwForwarded ⟨[⟨['p'], none, none⟩], [⟨['a'], none, none⟩], none, [], none⟩) 0 [['a']] = true ∧
+    pyRunsKwWrapper ⟨[⟨['p'], none, none⟩], [⟨['a'], none, none⟩], none, [], none⟩ 0 [['a']] = false := by
   decide
+
+/-- arguments the forwarding call supplies itself are taken off the callee's list: `g(1, **kwargs)`
+removes the first parameter that can be positional, `g(k=…, **kwargs)` the one named `k` (if it can
+be given by keyword); with nothing supplied nothing is removed -/
+theorem remove_given_spec (p : PName) (rest : List PName) (keys : List Str) :
+    removeGiven 0 [] (p :: rest) = p :: rest ∧
+    (maybePositional p = true → removeGiven 1 keys (p :: rest) = removeGiven 0 keys rest) ∧
+    (maybeKeyword p = true → keys.contains p.name = true →
+      removeGiven 0 keys (p :: rest) = removeGiven 0 keys rest) := by
+  refine ⟨removeGiven_zero_nil _, ?_, ?_⟩
+  · intro h; simp [removeGiven, h]
+  · intro h1 h2; simp_all [removeGiven]
 
 /-! ## the argument scan and `index` -/
 
